@@ -613,7 +613,7 @@ MUTANTS += [
       edits=[(SR, '\t\t\tgo offerPrimary(conn, "incoming accept", probeKey)\n', '\t\t\tif primaryChosen.Load() {\n\t\t\t\tcontinue\n\t\t\t}\n\t\t\tgo offerPrimary(conn, "incoming accept", probeKey)\n')]),
  dict(id='F28-benign-else-form', props=['C09', 'C08'], expect='SILENT',
       edits=[(SR, _EXTRA_GO, '\t\t\tgo func() {\n\t\t\t\terr := authenticateTransport(acceptCtx, conn, r.joinCode, authRoleReceive)\n\t\t\t\tif err == nil {\n\t\t\t\t\treport(extraResult{conn: conn})\n\t\t\t\t} else {\n\t\t\t\t\tconn.Close()\n\t\t\t\t\treport(extraResult{err: err})\n\t\t\t\t}\n\t\t\t}()\n')]),
- dict(id='F28-benign-sync-literal', props=['C09', 'C08'], expect='SILENT',
+ dict(id='F28-sync-literal-blocks-accept-loop', props=['C09', 'C08'], expect='R-ACCEPT-COMMIT/accept-not-blocked/',
       edits=[(SR, _EXTRA_GO, _EXTRA_GO.replace('\t\t\tgo func() {\n', '\t\t\tfunc() {\n'))]),
 ]
 
@@ -857,4 +857,80 @@ MUTANTS += [
       edits=[(SCF, '\tif int64(bitmapLen) > int64(reader.Len()) {\n\t\treturn nil, fmt.Errorf("sidecar truncated (bitmap)")\n\t}\n', '')]),
  dict(id='F45-length-check-after-make', props=['C06'], expect='R-SIDECAR-ALLOC/sidecar-alloc/make#1',
       edits=[(SCF, '\tif int(fileIDLen) > reader.Len() {\n\t\treturn nil, fmt.Errorf("sidecar truncated (file id)")\n\t}\n\tfileID := make([]byte, fileIDLen)\n', '\tfileID := make([]byte, fileIDLen)\n\tif int(fileIDLen) > reader.Len() {\n\t\treturn nil, fmt.Errorf("sidecar truncated (file id)")\n\t}\n')]),
+]
+
+# --- round 5 (DESIGN 8.10): rules written after the fifth seeding round; benign variants must stay silent ---
+_HFC_OLD = '\tn, err := file.ReadAt(buf, offset)\n\tif err != nil && err != io.EOF {\n'
+_ACC_OLD = '\t\t\tconn, err := transport.Accept(acceptCtx)\n\t\t\tif err != nil {\n\t\t\t\treport(extraResult{err: err})\n\t\t\t\treturn\n\t\t\t}\n\t\t\tgo func() {\n'
+_DISC_OLD = '\t\tpiece := scratch\n\t\tif int64(len(piece)) > n {\n\t\t\tpiece = piece[:n]\n\t\t}\n\t\tif err := readFullWithTimeout(ctx, s, piece, "", "mux-discard"); err != nil {\n\t\t\treturn err\n\t\t}\n\t\tn -= int64(len(piece))\n'
+_NEXT_OLD = '\tif s.scheduleDone {\n\t\tif s.resendPending {\n\t\t\tidx := s.resendChunk\n\t\t\ts.resendPending = false\n\t\t\ts.inFlight++\n\t\t\treturn idx, chunkSizeForIndex(s.item.Size, s.chunkSize, idx), true\n\t\t}\n\t\treturn 0, 0, false\n\t}\n\tif s.resendPending {\n\t\tidx := s.resendChunk\n\t\ts.resendPending = false\n\t\ts.inFlight++\n\t\treturn idx, chunkSizeForIndex(s.item.Size, s.chunkSize, idx), true\n\t}\n'
+_ADMIT_OLD = '\t\treceivers := 0\n\t\tfor _, p := range current {\n\t\t\tif p.Role == "receiver" {\n\t\t\t\treceivers++\n\t\t\t}\n\t\t}\n\t\treturn receivers < limits.maxReceiversPerSender\n'
+_TRANSF_OLD = '\tif state.Status == ReceiverStatusTransferring {\n\t\ts.mu.Unlock()\n\t\treturn\n\t}\n\tstate.Status = ReceiverStatusQueued\n'
+MUTANTS += [
+ # R-READAT-EOF
+ dict(id='R5-hash-read-wrong-sentinel', props=['C04', 'C06'], expect='R-READAT-EOF/eof-tolerated/transfer.hashFileChunk#1',
+      edits=[(MS, _HFC_OLD, '\tn, err := file.ReadAt(buf, offset)\n\tif err != nil && !errors.Is(err, io.ErrUnexpectedEOF) {\n')]),
+ dict(id='R5-benign-hash-read-errors-is', props=['C04', 'C06'], expect='SILENT',
+      edits=[(MS, _HFC_OLD, '\tn, err := file.ReadAt(buf, offset)\n\tif err != nil && !errors.Is(err, io.EOF) {\n')]),
+ dict(id='R5-benign-hash-read-exact-buffer', props=['C04', 'C06'], expect='SILENT',
+      edits=[(MS, _HFC_OLD, '\tn, err := file.ReadAt(buf[:chunkLen], offset)\n\tif err != nil {\n')]),
+ dict(id='R5-benign-sender-read-eof-not-exempt', props=['C04', 'C06', 'C02'], expect='SILENT',
+      edits=[(MS, '\t\t\t\tif err != nil && err != io.EOF && err != io.ErrUnexpectedEOF {\n\t\t\t\t\tbufPool.Put(buf)', '\t\t\t\tif err != nil {\n\t\t\t\t\tbufPool.Put(buf)')]),
+ # R-CAPTURE-STABLE
+ dict(id='R5-extra-conn-declared-outside-loop', props=['C08', 'C09'], expect='R-CAPTURE-STABLE/stable-capture/',
+      edits=[(SR, '\tgo func() {\n\t\tfor {\n' + _ACC_OLD[:0] + '\t\t\tconn, err := transport.Accept(acceptCtx)\n', '\tgo func() {\n\t\tvar conn transfer.Conn\n\t\tvar err error\n\t\tfor {\n\t\t\tconn, err = transport.Accept(acceptCtx)\n')]),
+ dict(id='R5-benign-extra-conn-passed-as-argument', props=['C08', 'C09'], expect='SILENT',
+      edits=[(SR, _ACC_OLD, _ACC_OLD.replace('go func() {\n', 'go func(conn transfer.Conn) {\n')),
+             (SR, '\t\t\t\treport(extraResult{conn: conn})\n\t\t\t}()\n', '\t\t\t\treport(extraResult{conn: conn})\n\t\t\t}(conn)\n')]),
+ dict(id='R5-benign-extra-conn-copied-per-iteration', props=['C08', 'C09'], expect='SILENT',
+      edits=[(SR, _ACC_OLD, _ACC_OLD.replace('conn, err := transport.Accept(acceptCtx)', 'accepted, err := transport.Accept(acceptCtx)').replace('\t\t\tgo func() {\n', '\t\t\tconn := accepted\n\t\t\tgo func() {\n'))]),
+ # R-DISCARD-EXACT
+ dict(id='R5-discard-counts-whole-scratch', props=['C03', 'C19'], expect='R-DISCARD-EXACT/discard-exact/transfer.discardWithTimeout#1',
+      edits=[(MS, _DISC_OLD, _DISC_OLD.replace('n -= int64(len(piece))', 'n -= int64(len(scratch))'))]),
+ dict(id='R5-discard-piece-not-cut', props=['C03', 'C19'], expect='R-DISCARD-EXACT/discard-exact/transfer.discardWithTimeout#1',
+      edits=[(MS, _DISC_OLD, _DISC_OLD.replace('\t\tif int64(len(piece)) > n {\n\t\t\tpiece = piece[:n]\n\t\t}\n', '\t\tif int64(len(piece)) < n {\n\t\t\tpiece = piece[:len(piece)]\n\t\t}\n'))]),
+ dict(id='R5-benign-discard-min-form', props=['C03', 'C19'], expect='SILENT',
+      edits=[(MS, _DISC_OLD, '\t\tk := min(n, int64(len(scratch)))\n\t\tif err := readFullWithTimeout(ctx, s, scratch[:k], "", "mux-discard"); err != nil {\n\t\t\treturn err\n\t\t}\n\t\tn -= k\n')]),
+ dict(id='R5-benign-discard-slice-defined-with-min', props=['C03', 'C19'], expect='SILENT',
+      edits=[(MS, _DISC_OLD, '\t\tpiece := scratch[:min(n, int64(len(scratch)))]\n\t\tif err := readFullWithTimeout(ctx, s, piece, "", "mux-discard"); err != nil {\n\t\t\treturn err\n\t\t}\n\t\tn -= int64(len(piece))\n')]),
+ # R-SENDTO-FRESH
+ dict(id='R5-benign-sendto-alias-inside-lookup', props=['C11', 'C10'], expect='SILENT',
+      edits=[(HUB, '\t\tconnID, exists := h.byPeerID[sessionID][peerID]\n\t\tif !exists {\n\t\t\treturn nil\n\t\t}\n\t\treturn h.sessions[sessionID][connID]\n', '\t\tids := h.byPeerID[sessionID]\n\t\tconnID, exists := ids[peerID]\n\t\tif !exists {\n\t\t\treturn nil\n\t\t}\n\t\treturn h.sessions[sessionID][connID]\n')]),
+ # R-STREAM-NO-READAHEAD
+ dict(id='R5-bufio-under-limitreader', props=['C18'], expect='R-STREAM-NO-READAHEAD/no-readahead/transfer.readBytesControl#1',
+      edits=[(CP, 'import (\n', 'import (\n\t"bufio"\n'),
+             (CP, '\tdata, err := io.ReadAll(io.LimitReader(s, int64(n)))\n', '\tdata, err := io.ReadAll(io.LimitReader(bufio.NewReader(s), int64(n)))\n')]),
+ dict(id='R5-benign-bufio-over-limitreader', props=['C18', 'C15'], expect='SILENT',
+      edits=[(CP, 'import (\n', 'import (\n\t"bufio"\n'),
+             (CP, '\tdata, err := io.ReadAll(io.LimitReader(s, int64(n)))\n', '\tdata, err := io.ReadAll(bufio.NewReader(io.LimitReader(s, int64(n))))\n')]),
+ # R-RESEND-REACHES
+ dict(id='R5-resend-after-schedule-dropped', props=['C17'], expect='R-RESEND-REACHES/resend-reaches/',
+      edits=[(MS, _NEXT_OLD, '\tif s.scheduleDone {\n\t\treturn 0, 0, false\n\t}\n\tif s.resendPending {\n\t\tidx := s.resendChunk\n\t\ts.resendPending = false\n\t\ts.inFlight++\n\t\treturn idx, chunkSizeForIndex(s.item.Size, s.chunkSize, idx), true\n\t}\n')]),
+ dict(id='R5-benign-resend-tested-first', props=['C17', 'C03', 'C06'], expect='SILENT',
+      edits=[(MS, _NEXT_OLD, '\tif s.resendPending {\n\t\tidx := s.resendChunk\n\t\ts.resendPending = false\n\t\ts.inFlight++\n\t\treturn idx, chunkSizeForIndex(s.item.Size, s.chunkSize, idx), true\n\t}\n\tif s.scheduleDone {\n\t\treturn 0, 0, false\n\t}\n')]),
+ # R-RECEIVER-COUNT
+ dict(id='R5-admit-counts-every-peer', props=['C14', 'C16'], expect='R-RECEIVER-COUNT/receiver-count/',
+      edits=[(SRV, _ADMIT_OLD, '\t\treceivers := 0\n\t\tfor range current {\n\t\t\treceivers++\n\t\t}\n\t\treturn receivers < limits.maxReceiversPerSender\n')]),
+ dict(id='R5-admit-len-of-peers', props=['C14', 'C16'], expect='R-RECEIVER-COUNT/receiver-count/',
+      edits=[(SRV, _ADMIT_OLD, '\t\treturn len(current) < limits.maxReceiversPerSender\n')]),
+ dict(id='R5-benign-admit-continue-form', props=['C14', 'C16'], expect='SILENT',
+      edits=[(SRV, _ADMIT_OLD, '\t\treceivers := 0\n\t\tfor _, p := range current {\n\t\t\tif p.Role != "receiver" {\n\t\t\t\tcontinue\n\t\t\t}\n\t\t\treceivers++\n\t\t}\n\t\treturn receivers < limits.maxReceiversPerSender\n')]),
+ # R-ACCEPT-BOOKED
+ dict(id='R5-accept-of-failed-receiver-dropped', props=['C12'], expect='R-ACCEPT-BOOKED/accept-booked/',
+      edits=[(SS, _TRANSF_OLD, '\tif state.Status == ReceiverStatusTransferring || state.Status == ReceiverStatusFailed {\n\t\ts.mu.Unlock()\n\t\treturn\n\t}\n\tstate.Status = ReceiverStatusQueued\n')]),
+ dict(id='R5-benign-accept-while-queued-ignored', props=['C12'], expect='SILENT',
+      edits=[(SS, _TRANSF_OLD, '\tif state.Status == ReceiverStatusTransferring || state.Status == ReceiverStatusQueued {\n\t\ts.mu.Unlock()\n\t\treturn\n\t}\n\tstate.Status = ReceiverStatusQueued\n')]),
+ # R-RESOLVER-STAT
+ dict(id='R5-benign-resolver-stat-renamed', props=['C13'], expect='SILENT',
+      edits=[(SS, '\t\tinfo, err := os.Stat(absPath)\n\t\tif err != nil {\n\t\t\treturn nil, fmt.Errorf("cannot access path %s: %w", absPath, err)\n\t\t}\n', '\t\tfi, err := os.Stat(absPath)\n\t\tif err != nil {\n\t\t\treturn nil, fmt.Errorf("cannot access path %s: %w", absPath, err)\n\t\t}\n'),
+             (SS, 'pathTarget{abs: absPath, isDir: info.IsDir()}', 'pathTarget{abs: absPath, isDir: fi.IsDir()}')]),
+ # R-VERIFY-EXEMPT (tightened), R-BUCKET (grant-after-refill), R-ACCEPT-COMMIT (accept-not-blocked)
+ dict(id='R5-verify-skipped-when-bitmap-full', props=['C06'], expect='R-VERIFY-EXEMPT/verify-exempt/',
+      edits=[(MS, '\t\t\t\t\tif verifyNeeded {\n\t\t\t\t\t\tstate.mu.Lock()\n\t\t\t\t\t\tstate.verifyPending = true', '\t\t\t\t\tif verifyNeeded && completedChunks < totalChunks {\n\t\t\t\t\t\tstate.mu.Lock()\n\t\t\t\t\t\tstate.verifyPending = true')]),
+ dict(id='R5-benign-verify-needed-reordered', props=['C06', 'C17'], expect='SILENT',
+      edits=[(MS, 'verifyNeeded := verifyMode != "none" && verifiedChunk < totalChunks && hashAlg != HashAlgNone && !hashUnknown', 'verifyNeeded := !hashUnknown && hashAlg != HashAlgNone && verifiedChunk < totalChunks && verifyMode != "none"')]),
+ dict(id='R5-bucket-grant-before-stamp', props=['C14'], expect='R-BUCKET/bucket/',
+      edits=[(SRV, '\tb.mu.Lock()\n\tdefer b.mu.Unlock()\n\tnow := time.Now()\n', '\tb.mu.Lock()\n\tdefer b.mu.Unlock()\n\tif b.tokens >= 2 {\n\t\tb.tokens--\n\t\treturn true\n\t}\n\tnow := time.Now()\n')]),
+ dict(id='R5-extra-auth-in-accept-loop', props=['C09'], expect='R-ACCEPT-COMMIT/accept-not-blocked/',
+      edits=[(SR, '\t\t\tgo func() {\n\t\t\t\tif err := authenticateTransport(acceptCtx, conn, r.joinCode, authRoleReceive); err != nil {', '\t\t\tfunc() {\n\t\t\t\tif err := authenticateTransport(acceptCtx, conn, r.joinCode, authRoleReceive); err != nil {')]),
 ]
